@@ -29,7 +29,7 @@ def _cases(draw, max_size=9):
     fnr = draw(_opt_list(tgt))
     fpr = draw(_opt_list(tgt))
     thr_n = draw(st.one_of(st.none(), st.none(), st.integers(0, 5)))
-    thr = None if thr_n is None else draw(gen.threshold_values(s["pos"] + s["neg"], thr_n, allow_inf=False))
+    thr = None if thr_n is None else draw(gen.threshold_values(s["pos"] + s["neg"], thr_n, allow_inf=True))
     nb = draw(st.sampled_from([None, 0, 1, 2, 3, 4, 7, 10, 25]))
     # narrow float dtypes for exactly representable score values
     f32 = draw(st.sampled_from([None, None, "float32", "float16"])) if s["mode"] in ("grid", "dyadic") else None
@@ -97,6 +97,22 @@ def check(case):
             if fnr is not None:
                 require(np.array_equal(a_fnr, fnr), "roc:mutated-input", ctx)
             max_distinct = max(max_distinct, len(set(t.tolist())))
+            # a caller that edits a returned curve in place (percent axis, re-sorting) must not
+            # affect the next call with the same arguments
+            if x_axis in ("fnr", "tar") and len(t) > 0:
+                c.fnr *= 100.0
+                c.fpr[...] = -1.0
+                c.thresholds.sort()
+                c2 = roc(o, fnr=None if fnr is None else fnr.copy(), fpr=fpr, thresholds=thr, nb_points=nb,
+                         x_axis=x_axis)
+                t2 = np.asarray(c2.thresholds, dtype=float)
+                require(len(t2) == len(t)
+                        and np.array_equal(np.asarray(c2.fnr), np.asarray(o.fnr(t2)), equal_nan=True)
+                        and np.array_equal(np.asarray(c2.fpr), np.asarray(o.fpr(t2)), equal_nan=True)
+                        and bool(np.all(np.diff(np.asarray(VIEW[x_axis](c2), dtype=float)) >= 0)),
+                        "roc:second-call-after-editing-first-result",
+                        lambda: f"{ctx}: after the caller edited the first curve in place, the same call "
+                                f"returns fnr={np.asarray(c2.fnr).tolist()} thresholds={t2.tolist()}")
         try:
             roc(o, nb_points=nb, x_axis="auc")
             raise Violation("roc:unknown-axis-accepted", f"config={sc}/{ec}")
